@@ -3,7 +3,7 @@ import re
 CONFIG = dict(
     bin="c01",
     drv="drv_c01",
-    lean_modules=["MahfModel.Props.C01"],
+    lean_modules=["MahfModel.Props.C01", "MahfModel.Props.C01H"],
     namespaces=["MahfModel.Props.C01"],
     shrink_lists=["ops", "inner"],
     level="proof",
@@ -11,6 +11,7 @@ CONFIG = dict(
           "accessors borrow, try_borrow, borrow_mut, try_borrow_mut, borrow_value, try_borrow_value, borrow_value_mut, "
           "try_borrow_value_mut used as lookups - guard taken, value read / replaced through it, guard dropped - and a write "
           "through the RefMut returned by entry().or_insert / or_default) plus State::with_inner_state(body; ok|err) "
+          "and State::holding::<T>(|t, state| { t += d; body; ok|err }) as statements "
           "with nested bodies (insert, remove, take, contains, "
           "contains_at_top, find, find_mut, get_value, try_get_value, set_value, get_mut, every entry combinator, "
           "occupied/vacant entry methods, into_child, into_parent, parent()/parent_mut() access, (try_)get_multiple_mut, "
@@ -21,11 +22,18 @@ CONFIG = dict(
           "err results, and L=3 over a reduced 37-statement alphabet; thorough: L=2 full, L=3 over the 76-statement base alphabet "
           "and over a 45-statement alphabet (reduced + four extended operations per type), L=4 reduced); (2) seeded random histories of length 40..120 over 4 types, occasionally all 8 "
           "(1000 quick / 50000 thorough) biased to shadow -> remove-underneath -> entry-on-shadowed / accessor-write -> pop, "
-          "with with_inner_state nesting up to 4 and multi-borrow tuples of arity 2..8. "
+          "with with_inner_state nesting up to 4 and multi-borrow tuples of arity 2..8; (3) State::holding - every exhaustive "
+          "alphabet contains nested holdings of two different types (outer call holding the innermost scope's state, the "
+          "enclosing scope's, both in one scope; bodies that insert / fail), the full alphabet five more (single, failing, "
+          "bodies that remove / insert / open with_inner_state scopes / nest a holding inside a scope inside a holding), and "
+          "seeded histories (site hold, 1500 quick / 40000 thorough, own random stream): 1..4 types spread with shadowing "
+          "over scopes of depth 1..4, then holdings nested up to depth 5 over DIFFERENT types (a type held by an enclosing "
+          "holding is never held again: that nesting is C02's recorded finding holding-samekey), issued from the innermost "
+          "scope or inside with_inner_state, with bodies of random operations, scopes, ok and err results, then pops. "
           "Every history ends with a dump of every scope. A history is non-trivial if it contains a scope push, an "
           "insert and at least one lookup/removal/entry access; distinct = distinct canonical op list."),
     nontrivial=lambda inp: ("(push)" in inp and "(ins " in inp
-                            and re.search(r"\((tryget|get|rem|take|find|set|getmut|ent-|occ-|vac-|parget|multi|gset|gget|inner|bor|trybor|bval|trybval)", inp) is not None),
+                            and re.search(r"\((tryget|get|rem|take|find|set|getmut|ent-|occ-|vac-|parget|multi|gset|gget|inner|hold|bor|trybor|bval|trybval)", inp) is not None),
     trusted_base=[
         "HashMap<TypeId, _> represented by an association list keyed by a type index; TypeId distinctness of the "
         "harness types K0..K7 and better_any downcasts (the unwraps after a key hit) are not modelled",
@@ -33,7 +41,9 @@ CONFIG = dict(
         "types deref to their u64 field)",
         "state values are u64 newtypes modelled as Nat (the generators never overflow)"],
     assumptions=["SplitMix64-seeded generator", "no guard is alive between two operations of a C01 history "
-                 "(the harness drops every Ref/RefMut inside the operation; live guards are C02)"],
+                 "(the harness drops every Ref/RefMut inside the operation; live guards are C02)",
+                 "closure bodies of with_inner_state / holding contain no raw into_child / into_parent and no holding of a "
+                 "type that an enclosing holding already holds (C02 finding holding-samekey)"],
 )
 CONFIG.update(
     level_text=("Lean 4 theorems: the code-shaped registry model (chain of association lists with RefCell flags, find + "
@@ -42,7 +52,14 @@ CONFIG.update(
                 "lookups and writes through the RefMut of or_insert / or_default (xstep_refines) - and for with_inner_state "
                 "statements with ok/err bodies (stmt_refines, xstmt_refines), hence for "
                 "every finite history (history_refines, history_refines_from, history_refines_stmts, history_refines_xstmts = "
-                "what the driver replays); guarded_access_refused; "
+                "hold-free part of what the driver replays); guarded_access_refused; State::holding as a statement "
+                "(Model/RegistryH: marker entry in the chain, find of the marker afterwards; specification = the value leaves its "
+                "scope and is back in THAT scope, counted from the root): holding_puts_back_into_source_scope (any body of "
+                "extended operations, scopes and nested holdings of other types, Ok or Err: the type is back in the scope it "
+                "was taken from with the body's value, no marker left, chain height kept, every other cell as the body left it), "
+                "nested_holdings_restore_both (two nested holdings of different types, states in any two scopes: both back in "
+                "their own scopes), holding_leaves_other_types (frame: a statement never moves a type it does not name), "
+                "holding_absent, holding_statements_keep_invariant; "
                 "stated outright: lookup_innermost + lookup_innermost_rest (find = first holder; every reading / removing / "
                 "writing / entry operation kind acts on that cell), guard_accessors_innermost (the eight accessors read / replace "
                 "exactly that cell, no other scope or type changes), insert_top_reports_top, remove_innermost_reexposes (only that "
@@ -58,6 +75,10 @@ CONFIG.update(
                 "a final dump against the compiled model (K) and against the abstract stack of maps (O)."),
     level_note=("Trusted: Lean kernel; HashMap/TypeId represented by association lists over type indices; harness + driver "
                 "printing. The theorem is about the model; agreement with the code is checked on the generated histories only. "
+                "For histories containing State::holding the agreement of the code-shaped model with the stack of maps is "
+                "proved cell-wise (theorems above), not as one refinement theorem over the whole history; on the generated "
+                "histories it is checked by the driver (model = code = stack of maps). partial: a holding nested in a holding "
+                "of the SAME type is excluded (hypothesis HProg.avoids; C02 records it as finding holding-samekey). "
                 "Not modelled: TypeId hashing/collisions, better_any downcasts, lifetimes; guards that outlive an operation "
                 "(C02); entry objects used for more than one call; operations through parent_mut() other than insert; "
                 "with_inner_state bodies that un-balance the scopes themselves are in the model but not generated; "
